@@ -169,6 +169,12 @@ func (e *OpEngine) expectError(key, label, pos string, res []interp.Value, why s
 	last := res[len(res)-1]
 	if !isErrVal(last) {
 		e.find("A4.pre", key, "accepts-invalid", pos, fmt.Sprintf("accepts arguments that violate the documented precondition (%s) [instance %s]", why, label))
+		return
+	}
+	if len(res) == 2 && !interp.IsNil(res[0]) {
+		if _, isPtr := res[0].(interp.PtrV); isPtr || isIface(res[0]) {
+			e.find("A4.pre", key, "error-with-result", pos, fmt.Sprintf("returns an error together with a non-nil result (%s) [instance %s]", why, label))
+		}
 	}
 }
 
@@ -295,3 +301,8 @@ func (e *OpEngine) RunLossChecks() {
 }
 
 var _ = math.Inf
+
+func isIface(v interp.Value) bool {
+	_, ok := v.(interp.IfaceV)
+	return ok
+}
